@@ -1280,7 +1280,48 @@ impl<'a, 'b> Gen<'a, 'b> {
 
     /// statements and expressions of this part
     pub fn stmt_more2(&mut self) {
-        match self.t.below(7) {
+        match self.t.below(9) {
+            7 => {
+                // event_control ::= @ ps_or_hierarchical_sequence_identifier (package scope without parentheses)
+                self.tag("event-control-package-scope");
+                self.sym("@");
+                if self.t.chance(1, 4) {
+                    self.push("$unit", Class::Keyword);
+                } else {
+                    self.id("pkg_r");
+                }
+                self.sym("::");
+                self.id("seq_ev");
+                if self.t.flip() {
+                    self.sym(";");
+                } else {
+                    self.stmt_not_assignment();
+                }
+            }
+            8 => {
+                // class_scope with a package scope and a parameter value assignment in front of a static member
+                self.tag("package-class-scope");
+                self.lvalue_simple();
+                self.sym("=");
+                if self.t.flip() {
+                    self.push("$unit", Class::Keyword);
+                } else {
+                    self.id("pkg_r");
+                }
+                self.sym("::");
+                self.id("cls_p");
+                if self.t.chance(2, 3) {
+                    self.sym("#");
+                    self.sym("(");
+                    if self.t.chance(3, 4) {
+                        self.small_const();
+                    }
+                    self.sym(")");
+                }
+                self.sym("::");
+                self.id("memb_s");
+                self.sym(";");
+            }
             0 => {
                 // tagged_union_expression
                 self.tag("tagged-union-expression");
